@@ -9,28 +9,33 @@ import (
 	"encoding/json"
 	"math/rand"
 	"os"
+	"runtime"
+	"sync"
 
 	"github.com/willabides/rjson"
 )
 
 // specState is one reachable state of MC_JSONMachine with its BFS witness.
 type specState struct {
-	K    string  `json:"k"`
-	C    string  `json:"c"`
-	X    string  `json:"x"`
-	N    int     `json:"n"`
-	W    int     `json:"w"`
-	D    int     `json:"d"`
-	Out  string  `json:"out"`
-	Inp  []int   `json:"inp"`
-	Comp []int   `json:"comp"`
-	Succ []succT `json:"succ"`
+	Key   string  `json:"key"`
+	K     string  `json:"k"`
+	C     string  `json:"c"`
+	X     string  `json:"x"`
+	N     int     `json:"n"`
+	W     int     `json:"w"`
+	D     int     `json:"d"`
+	Out   string  `json:"out"`
+	Inp   []int   `json:"inp"`
+	Comp  []int   `json:"comp"`
+	Close []int   `json:"close"`
+	Succ  []succT `json:"succ"`
 }
 
 type succT struct {
 	B    int    `json:"b"`
 	Out  string `json:"out"`
 	Comp []int  `json:"comp"`
+	Key  string `json:"key"`
 }
 
 type specStates struct {
@@ -89,11 +94,15 @@ type parseObserver struct {
 
 var dirtyDoc = []byte(`[[[[{"a":[{"b":[1,`)
 var deepDoc = bytes.Repeat([]byte("["), 300)
+var tooDeepDoc = bytes.Repeat([]byte("["), 10001)
 
 func newParseObserver() *parseObserver {
 	po := &parseObserver{}
+	// the reused buffer has been through a valid deep document and through a nest beyond the depth
+	// limit (an error exit with the stack grown as far as it ever grows); replay recreates exactly this
 	d := append(append([]byte{}, deepDoc...), bytes.Repeat([]byte("]"), 300)...)
 	rjson.Valid(d, &po.used)
+	rjson.SkipValue(tooDeepDoc, &po.used)
 	return po
 }
 
@@ -155,19 +164,69 @@ func (po *parseObserver) observe(data []byte, o []int) []int {
 	return o
 }
 
-// genSweep: every reachable spec state x every byte value x continuations.
+// genSweep: every base (reachable state, and every viable transition into a state) x byte values x
+// continuations; one compact "sweep" event per base.
 func genSweep(ss *specStates, sw *shardWriter, tier string, rng *rand.Rand, st *genStats) {
-	po := newParseObserver()
-	var j jb
-	obs := make([]int, 0, parseObsLen)
-	buf := make([]byte, 0, 256)
-	for si := range ss.States {
-		s := &ss.States[si]
-		if s.Out == "err" {
-			continue
-		}
-		pre := toBytes(s.Inp)
-		// suffix table
+	thorough := tier == "thorough"
+	mem := classMembers(ss)
+	conts := [][]byte{[]byte("5"), []byte("0"), []byte(`"`)}
+	if thorough {
+		conts = tokenCompletions(ss)
+	}
+	bases := sweepBases(ss, true, thorough, rng)
+	parallelBases(bases, st, rng, func(base sweepBase, rng *rand.Rand, st *genStats, w *sweepWorker) {
+		genSweepBase(ss, sw, base, thorough, mem, conts, rng, st, w)
+	})
+}
+
+// sweepWorker holds the per-goroutine scratch of a sweep.
+type sweepWorker struct {
+	po   *parseObserver
+	j    jb
+	obs  []int
+	buf  []byte
+	rd   rjson.ValueReader // private reused reader (trees)
+	used rjson.Buffer      // private reused buffer (handlers)
+}
+
+// parallelBases runs fn over the bases on all CPUs; every worker has its own observer, random
+// source and statistics (merged at the end), so the result does not depend on scheduling.
+func parallelBases(bases []sweepBase, st *genStats, rng *rand.Rand, fn func(base sweepBase, rng *rand.Rand, st *genStats, w *sweepWorker)) {
+	nw := runtime.NumCPU()
+	if nw > 16 {
+		nw = 16
+	}
+	seeds := make([]int64, len(bases))
+	for i := range seeds {
+		seeds[i] = rng.Int63()
+	}
+	var wg sync.WaitGroup
+	stats := make([]*genStats, nw)
+	for w := 0; w < nw; w++ {
+		stats[w] = newStats()
+		wg.Add(1)
+		go func(w int) {
+			defer wg.Done()
+			sw := &sweepWorker{po: newParseObserver(), obs: make([]int, 0, parseObsLen), buf: make([]byte, 0, 256)}
+			for i := w; i < len(bases); i += nw {
+				fn(bases[i], rand.New(rand.NewSource(seeds[i])), stats[w], sw)
+			}
+		}(w)
+	}
+	wg.Wait()
+	for _, s := range stats {
+		st.merge(s)
+	}
+}
+
+func genSweepBase(ss *specStates, sw *shardWriter, base sweepBase, thorough bool, mem map[int][]int, conts [][]byte, rng *rand.Rand, st *genStats, w *sweepWorker) {
+	po := w.po
+	j := &w.j
+	obs := w.obs
+	buf := w.buf
+	{
+		s := base.st
+		pre := base.pre
 		sufs := [][]byte{{}}
 		sufIdx := map[string]int{"": 0}
 		add := func(b []byte) int {
@@ -178,42 +237,10 @@ func genSweep(ss *specStates, sw *shardWriter, tier string, rng *rand.Rand, st *
 			sufs = append(sufs, b)
 			return len(sufs) - 1
 		}
-		srcComp := -1
-		succComp := map[int]int{}
-		if s.Out == "run" {
-			srcComp = add(toBytes(s.Comp))
-			for _, su := range s.Succ {
-				if su.Out == "run" || su.Out == "done" {
-					succComp[su.B] = add(toBytes(su.Comp))
-				}
-			}
-		} else { // done: something follows a complete value
-			srcComp = add([]byte(" 1"))
-		}
-		// which members of each class get the continuation rows in the quick tier
-		pick := map[int]bool{}
-		if tier != "thorough" {
-			members := map[int][]int{}
-			for b := 0; b < 256; b++ {
-				members[ss.Classes[b]] = append(members[ss.Classes[b]], b)
-			}
-			for _, m := range members {
-				pick[m[0]] = true
-				pick[m[len(m)-1]] = true
-				pick[m[rng.Intn(len(m))]] = true
-			}
-		}
 		j.reset()
 		j.raw(`{"op":"sweep","pre":`)
 		j.bytes(pre)
-		j.raw(`,"sufs":[`)
-		for i, sf := range sufs {
-			if i > 0 {
-				j.comma()
-			}
-			j.bytes(sf)
-		}
-		j.raw(`],"rows":[`)
+		j.raw(`,"rows":[`)
 		first := true
 		row := func(b, sfi int) {
 			buf = append(buf[:0], pre...)
@@ -235,20 +262,66 @@ func genSweep(ss *specStates, sw *shardWriter, tier string, rng *rand.Rand, st *
 			j.raw("]")
 			st.note(buf, obs[16] != 0)
 		}
-		for b := 0; b < 256; b++ {
-			row(b, 0)
-			if tier == "thorough" || pick[b] {
-				if srcComp > 0 {
-					row(b, srcComp)
+		if s.Out != "run" { // a complete value: whatever follows
+			tail := add([]byte(" 1"))
+			for b := 0; b < 256; b++ {
+				if base.edge && !thorough && b != mem[ss.Classes[b]][0] {
+					continue
 				}
-				if ci, ok := succComp[ss.Classes[b]]; ok && ci != srcComp && ci != 0 {
-					row(b, ci)
+				row(b, 0)
+				if b == mem[ss.Classes[b]][0] {
+					row(b, tail)
 				}
 			}
+		} else {
+			succ := map[int]*succT{}
+			for i := range s.Succ {
+				succ[s.Succ[i].B] = &s.Succ[i]
+			}
+			comp := toBytes(s.Comp)
+			srcComp := add(comp)
+			for b := 0; b < 256; b++ {
+				ms := mem[ss.Classes[b]]
+				picked := thorough || b == ms[0] || (!base.edge && (b == ms[len(ms)-1] || (len(ms) > 2 && rng.Intn(len(ms)) == 0)))
+				if base.edge && !picked {
+					continue // edge bases: one byte per class in the quick tier
+				}
+				row(b, 0)
+				if !picked {
+					continue
+				}
+				su := succ[ss.Classes[b]]
+				if su != nil && (su.Out == "run" || su.Out == "done") {
+					if ci := add(toBytes(su.Comp)); ci != 0 {
+						row(b, ci)
+					}
+					continue
+				}
+				if srcComp != 0 {
+					row(b, srcComp)
+				}
+				if thorough || (b == ms[0] && !base.edge) || (b == ms[0] && ss.Classes[b] != 33 && ss.Classes[b] != 0 && ss.Classes[b] != 128) {
+					cs := conts
+					if base.edge && !thorough {
+						cs = conts[:1]
+					}
+					for _, t := range cs {
+						row(b, add(append(append([]byte{}, t...), comp...)))
+					}
+				}
+			}
+		}
+		j.raw(`],"sufs":[`)
+		for i, sf := range sufs {
+			if i > 0 {
+				j.comma()
+			}
+			j.bytes(sf)
 		}
 		j.raw(`]}`)
 		sw.write(j.b)
 	}
+	w.obs, w.buf = obs, buf
 }
 
 // writeDoc observes one whole document and writes a "doc" event.
@@ -268,6 +341,34 @@ func writeDoc(po *parseObserver, sw *shardWriter, j *jb, data []byte, segs []seg
 	j.raw(`}`)
 	sw.write(j.b)
 	st.note(data, obs[16] != 0)
+}
+
+// genDepthContexts: the depth limit in every syntactic position.  Every reachable
+// state of the (depth-3) model in which a value may start is inflated to the real
+// limit by padding its witness with outer arrays; both brackets are then offered
+// at total depth 10000 (must be accepted) and 10001 (must be refused).
+func genDepthContexts(ss *specStates, sw *shardWriter, tier string, st *genStats) {
+	po := newParseObserver()
+	po.noStd = false
+	var j jb
+	for si := range ss.States {
+		s := &ss.States[si]
+		if s.Out != "run" || s.D != 3 || !(s.K == "V" || s.K == "A0") {
+			continue
+		}
+		if tier != "thorough" && s.W == 1 {
+			continue // whitespace-seen copies only in the thorough tier
+		}
+		w := toBytes(s.Inp)
+		cl := toBytes(s.Close)
+		for _, pad := range []int{9996, 9997} {
+			for _, br := range []string{"[]", "{}"} {
+				mid := append(append(append([]byte{}, w...), br...), cl...)
+				segs := []seg{{[]byte("["), pad}, {mid, 1}, {[]byte("]"), pad}}
+				writeDoc(po, sw, &j, expandSegs(segs), segs, st)
+			}
+		}
+	}
 }
 
 // depth family: nesting at, just below and just above the limit in every
